@@ -261,6 +261,14 @@ func verifC06_SignVerify() {
 	// new value is symbolic (it may coincide with the signed value: then nothing was changed)
 	// (the signed header value contains a tab: legal in a header value, and not a space)
 	signed := vParts{method: "POST", path: "/a", query: "x", header: "a\tb", body: []byte{7}}
+	changedPart := verifChoose("changedPart", 6)
+	if changedPart == 5 {
+		// the body is covered whatever the method (a GET or HEAD may carry one as well)
+		signed.method = []string{"POST", "GET", "HEAD"}[verifChoose("signed.method", 3)]
+		if signed.method != "POST" {
+			verifCover("body-of-a-get-or-head-request-is-covered")
+		}
+	}
 	r1 := signed.request()
 	// the client signs with its own signer; the Validator's signer is built from a spec that
 	// lists the known access keys only (as the Validator filter does)
@@ -272,7 +280,7 @@ func verifC06_SignVerify() {
 	verifAssert(auth != "" && date != "", "signature-headers-set")
 
 	sent := signed
-	switch verifChoose("changedPart", 6) {
+	switch changedPart {
 	case 1:
 		sent.method = []string{"GET", "POST", "PUT"}[verifChoose("sent.method", 3)]
 	case 2:
